@@ -254,7 +254,12 @@ def check(run):
     for b in (anon3, zork, U["meters"]):
         for nm, e, tmpl in (("pow<12>", Fr(12), "au::pow<12>(%s{})"), ("pow<-12>", Fr(-12), "au::pow<-12>(%s{})"),
                             ("pow<-3>(root<2>)", Fr(-3, 2), "au::pow<-3>(au::root<2>(%s{}))"), ("root<6>(pow<5>)", Fr(5, 6), "au::root<6>(au::pow<5>(%s{}))"),
-                            ("pow<10>(root<3>)", Fr(10, 3), "au::pow<10>(au::root<3>(%s{}))"), ("root<12>", Fr(1, 12), "au::root<12>(%s{})")):
+                            ("pow<10>(root<3>)", Fr(10, 3), "au::pow<10>(au::root<3>(%s{}))"), ("root<12>", Fr(1, 12), "au::root<12>(%s{})"),
+                            # exponents beyond 32 bits (the exponent is a std::intmax_t): digits, sign and parentheses must survive
+                            ("pow<2^31-1>", Fr(2 ** 31 - 1), "au::pow<2147483647>(%s{})"), ("pow<2^31>", Fr(2 ** 31), "au::pow<2147483648>(%s{})"),
+                            ("pow<2^32+2>", Fr(2 ** 32 + 2), "au::pow<4294967298>(%s{})"), ("pow<-(2^32-1)>", Fr(-(2 ** 32 - 1)), "au::pow<-4294967295>(%s{})"),
+                            ("pow<-2^31-1>", Fr(-(2 ** 31) - 1), "au::pow<-2147483649>(%s{})"),
+                            ("root<3>(pow<2^32+1>)", Fr(2 ** 32 + 1, 3), "au::root<3>(au::pow<4294967297>(%s{}))")):
             tb = dict(table)
             if b is zork:
                 tb[labels.UNL_UNIT] = (zork.dim, zork.mag)
